@@ -1160,7 +1160,8 @@ def formatter_parse(I, fmt):
     import string
     if isinstance(fmt, str):
         try:
-            return PyList([tuple(t) for t in string.Formatter().parse(fmt)])
+            # as in CPython: an iterator that can be consumed ONCE (a second loop over the same object sees nothing)
+            return _interp_mod()._Iter([tuple(t) for t in string.Formatter().parse(fmt)])
         except ValueError as e:
             I.raise_builtin('ValueError', str(e))
     f = I.ghost.get('formatter_parse')
